@@ -277,9 +277,9 @@ def jobs(tier):
         J.append(("job_years", dict(mode=mode, rep="cal", klo=-450, khi=450)))
         J.append(("job_years", dict(mode=mode, rep="ord", klo=-450, khi=450)))
         if greg or th:
-            for res in ((0, 4, 99, 100, 104, 203, 300, 303, 396, 399) if th else (0, 4, 99, 104, 303, 399)):
+            for res in ((0, 4, 99, 100, 104, 203, 300, 303, 396, 399) if (th and greg) else (0, 4, 99, 104, 303, 399)):
                 J.append(("job_years", dict(mode=mode, rep="week", klo=-30, khi=30, pins=C.residue_pins(res))))
-                for n in (-1, 1) if not th else (-13, -1, 1, 14):
+                for n in (-1, 1) if not (th and greg) else (-13, -1, 1, 14):
                     for w in ((1, 9), (10, 44), (45, 53)):
                         J.append(("job_months", dict(mode=mode, rep="week", n=n, pins=C.residue_pins(res),
                                                      ranges={"W": w})))
@@ -308,7 +308,7 @@ INFO = {
     "bounds": {"quick": {"years": "-1 000 000..999 999", "months": "calendar: every n in -14..14 in all modes; ordinal: n in {-13,-2,-1,1,2,14} (gregorian), {-1,1,13} (other modes); week dates: n = +-1, year residues 0/4/99/104/303/399 (gregorian)",
                          "year counts": "calendar/ordinal: k in -450..450 symbolic, all modes; week dates: k in -30..30 for the six year residues (gregorian)",
                          "mixed": "gregorian: n = +-1 with symbolic years +-2, days +-2, hours +-30"},
-               "thorough": {"months": "ordinal as gregorian in all modes", "week dates": "10 year residues, n in {-13,-1,1,14}"}},
+               "thorough": {"months": "ordinal as gregorian in all modes", "week dates": "gregorian: 10 year residues, n in {-13,-1,1,14}; other modes as quick"}},
     "outside": ["24:00 start points (normalised first; covered by C01)", "month counts beyond +-14", "fractional time fields"],
     "assumptions": ["for ordinal and week points the oracle starts from the calendar date given by the real conversion (C03)",
                     "mixed durations: the exact, month and year steps used as reference are the real single-kind additions verified by C01 and by this check's own jobs"],
